@@ -13,6 +13,8 @@ TInit == ctx = [none |-> 1] /\ niter = 0 /\ l = 1 /\ TLCSet(1, <<0, "none">>)
 
 T_Reset == IsEv("reset") /\ ctx' = [none |-> 1] /\ UNCHANGED niter
 T_NoFile == IsEv("simple_nofile") /\ ChkP(FALSE, {"C05", "C13"}, "file-could-not-be-produced-or-opened") /\ UNCHANGED vars
+\* a deliberately damaged image that the reader refuses to open (returns an error): nothing is delivered
+T_Refused == IsEv("simple_refused") /\ UNCHANGED vars
 T_Pc == /\ IsEv("simple_pc")
         /\ ChkP(~("panic" \in DOMAIN E.raw), {"C05", "C08"}, "raw-iterator-panicked")
         /\ ctx' = E /\ UNCHANGED niter
@@ -68,6 +70,6 @@ T_Iter ==
               /\ Len(E.res.got) = Len(Raw) => \A k \in 1..Len(Raw) : ChkP(PtOk(k, E.res.got[k]), {"C05", "C13"}, "point-is-not-the-documented-view-of-the-raw-values")
     /\ niter' = niter + 1 /\ UNCHANGED ctx
 
-TNext == T_Reset \/ T_NoFile \/ T_Pc \/ T_Iter
+TNext == T_Reset \/ T_NoFile \/ T_Refused \/ T_Pc \/ T_Iter
 TSpec == TInit /\ [][TNext]_<<vars, l>>
 =============================================================================
